@@ -203,22 +203,7 @@ class GMRF(Distribution):
             else:
                 s = self.mean[:, np.newaxis] + (1/np.sqrt(self.prec))*splinalg.spsolve(self._chol.T, xi)
                         
-        elif (self._bc_type == 'periodic'):
-            
-            if self._physical_dim == 2:
-                raise NotImplementedError("Sampling not implemented for periodic boundary conditions in 2D")
-
-            if rng is not None:
-                xi = rng.standard_normal((self.dim, N)) + 1j*rng.standard_normal((self.dim, N))
-            else:
-                xi = np.random.randn(self.dim, N) + 1j*np.random.randn(self.dim, N)
-            
-            F = dft(self.dim, scale='sqrtn')   # unitary DFT matrix
-            eigv = np.hstack([self._L_eigval, self._L_eigval[-1]])  # repeat last eigval to complete dim
-            L_sqrt = diags(np.sqrt(eigv)) 
-            s = self.mean[:, np.newaxis] + (1/np.sqrt(self.prec))*np.real(F.conj() @ splinalg.spsolve(L_sqrt, xi)).reshape(self.dim, N)
-            
-        elif (self._bc_type == 'neumann'):
+        elif (self._bc_type == 'periodic') or (self._bc_type == 'neumann'):
 
             if rng is not None:
                 xi = rng.standard_normal((self._diff_op.shape[0], N))   # standard Gaussian
